@@ -45,8 +45,10 @@ VARIABLES w,        \* word -> set of bits
           acc,      \* thread -> pages collected by the running harvest / clone
           marked,   \* pages whose mark operation has completed
           everMarked, harvested, clearedExplicit,
-          stray     \* TRUE once a step cleared or set a bit its operation was not entitled to
-vars == <<w, prog, pc, tmp, half, acc, marked, everMarked, harvested, clearedExplicit, stray>>
+          stray,    \* TRUE once a step cleared or set a bit its operation was not entitled to
+          since,    \* thread -> pages cleared (by anybody) since the thread's running operation began
+          owed      \* pages with a COMPLETED mark that no step has cleared since that mark began: they must be set
+vars == <<w, prog, pc, tmp, half, acc, marked, everMarked, harvested, clearedExplicit, stray, since, owed>>
 
 Threads == DOMAIN prog
 
@@ -69,6 +71,12 @@ Cur(t) == prog[t][pc[t][1]]
 Running(t) == pc[t][1] <= Len(prog[t])
 
 \* bookkeeping when thread t finishes step number pc[t][2] of its current operation
+\* per-mark accounting: X = the pages this step cleared
+Account(t, op, lastStep, X) ==
+    LET s1 == [u \in DOMAIN since |-> since[u] \cup X] IN
+    /\ owed' = (owed \ X) \cup (IF lastStep /\ op.k = "mark" THEN Target(op) \ s1[t] ELSE {})
+    /\ since' = IF lastStep THEN [s1 EXCEPT ![t] = {}] ELSE s1
+
 Advance(t, op, nsteps, got) ==
     LET lastStep == pc[t][2] >= nsteps IN
     /\ pc' = [pc EXCEPT ![t] = IF lastStep THEN <<pc[t][1] + 1, 1>> ELSE <<pc[t][1], pc[t][2] + 1>>]
@@ -86,6 +94,7 @@ Do(t, op, kind, j, a, nsteps) ==
     IN  /\ w' = [w EXCEPT ![j] = nv]
         /\ stray' = (stray \/ ~(clearedP \subseteq MayClear(op)) \/ ~(setP \subseteq MaySet(op)))
         /\ clearedExplicit' = IF op.k \in {"unmark", "reset"} THEN clearedExplicit \cup clearedP ELSE clearedExplicit
+        /\ Account(t, op, pc[t][2] >= nsteps, clearedP)
         /\ Advance(t, op, nsteps, got)
 
 Step(t) ==
@@ -95,13 +104,14 @@ Step(t) ==
        IF Len(ss) = 0
        THEN /\ pc' = [pc EXCEPT ![t] = <<pc[t][1] + 1, 1>>]
             /\ marked' = IF op.k = "mark" THEN marked \cup Target(op) ELSE marked
+            /\ Account(t, op, TRUE, {})
             /\ UNCHANGED <<w, tmp, half, acc, harvested, clearedExplicit, stray>>
        ELSE LET s == ss[pc[t][2]] IN
             IF Split /\ s[1] \in {"fetch_or", "fetch_and"}
             THEN IF ~half[t]
                  THEN \* first half: plain load
                       /\ tmp' = [tmp EXCEPT ![t] = w[s[2]]] /\ half' = [half EXCEPT ![t] = TRUE]
-                      /\ UNCHANGED <<w, pc, acc, marked, harvested, clearedExplicit, stray>>
+                      /\ UNCHANGED <<w, pc, acc, marked, harvested, clearedExplicit, stray, since, owed>>
                  ELSE \* second half: store of the value computed from the stale load
                       /\ half' = [half EXCEPT ![t] = FALSE] /\ tmp' = [tmp EXCEPT ![t] = {}]
                       /\ LET nv == Effect(s[1], tmp[t], s[3])
@@ -111,6 +121,7 @@ Step(t) ==
                          /\ stray' = (stray \/ ~(PagesOf(s[2], v \ nv) \subseteq MayClear(op)) \/ ~(PagesOf(s[2], nv \ v) \subseteq MaySet(op))
                                             \/ (op.k = "harvest" /\ tmp[t] # v))     \* took more than it returns
                          /\ clearedExplicit' = IF op.k \in {"unmark", "reset"} THEN clearedExplicit \cup PagesOf(s[2], v \ nv) ELSE clearedExplicit
+                         /\ Account(t, op, pc[t][2] >= Len(ss), PagesOf(s[2], v \ nv))
                          /\ Advance(t, op, Len(ss), got)
             ELSE /\ Do(t, op, s[1], s[2], s[3], Len(ss))
                  /\ UNCHANGED <<tmp, half>>
@@ -124,6 +135,7 @@ Init == \E sc \in Scenarios :
           /\ tmp = [t \in DOMAIN sc |-> {}] /\ half = [t \in DOMAIN sc |-> FALSE]
           /\ acc = [t \in DOMAIN sc |-> {}]
           /\ marked = {} /\ harvested = {} /\ clearedExplicit = {} /\ stray = FALSE
+          /\ since = [t \in DOMAIN sc |-> {}] /\ owed = {}
           /\ everMarked = UNION {UNION {Target(sc[t][i]) : i \in 1 .. Len(sc[t])} : t \in DOMAIN sc}
 
 Next == \E t \in Threads : Step(t)
@@ -139,6 +151,9 @@ AllDone == \A t \in Threads : ~Running(t)
 \* a page marked at any time is contained in the result of some fetch-and-clear, or still set, or was explicitly reset
 InFlight == UNION {IF Running(t) /\ Cur(t).k = "harvest" THEN acc[t] ELSE {} : t \in Threads}   \* taken by a harvest still running
 NoLostMark == marked \subseteq (harvested \cup InFlight \cup Bits \cup clearedExplicit)
+\* ... per mark, with the order: a mark that has completed, and whose page nobody has cleared since it BEGAN, left its page
+\* set (a mark issued after a harvest returned is not excused by that earlier harvest)
+EveryMarkCounts == owed \subseteq Bits
 \* no fetch-and-clear reports a page nobody marked
 NoPhantom == harvested \subseteq everMarked
 \* no step clears or sets a bit its operation is not entitled to (two marks in one word never erase one another)
